@@ -194,7 +194,7 @@ def run(tier, seed):
                                     theorem=pg['theorems'], problems=pg['problems']), False))
     ncases = 40 if tier == 'quick' else 500
     cases = [seed * 100000 + 17000 + i for i in range(ncases)]
-    for r in core.run_cases(run_case, cases):
+    for r in core.run_cases(run_case, core.with_corpus(PID, cases)):
         rep.merge(r)
     rep.obligation('correspondence: Writers.Chk2plt.convert_level (binary files byte for byte, (file, offset) table) = output of chk2plt',
                    not any(v[0].get('kind') == 'model-vs-impl' for v in rep.violations))
